@@ -664,6 +664,15 @@ class BlockNormalizer:
                     for t, v in zip(s.targets[0].elts, s.value.elts):
                         out.append(ast.copy_location(ast.Assign(targets=[t], value=v), s))
                     continue
+            # `self.a, self.b = x, True`: attribute targets, call-free values that read none of the targets
+            if isinstance(s, ast.Assign) and len(s.targets) == 1 and isinstance(s.targets[0], ast.Tuple) and isinstance(s.value, ast.Tuple) and len(s.targets[0].elts) == len(s.value.elts) and all(isinstance(t, ast.Name) or (isinstance(t, ast.Attribute) and isinstance(t.value, ast.Name)) for t in s.targets[0].elts) and any(isinstance(t, ast.Attribute) for t in s.targets[0].elts):
+                tnames = {t.id for t in s.targets[0].elts if isinstance(t, ast.Name)}
+                tattrs = {_u(t) for t in s.targets[0].elts if isinstance(t, ast.Attribute)}
+                clean = all(not any(isinstance(x, ast.Call) for x in ast.walk(v)) and not (_names_loaded(v) & tnames) and not any(isinstance(x, ast.Attribute) and _u(x) in tattrs for x in ast.walk(v)) for v in s.value.elts)
+                if clean:
+                    for t, v in zip(s.targets[0].elts, s.value.elts):
+                        out.append(ast.copy_location(ast.Assign(targets=[t], value=v), s))
+                    continue
             out.append(s)
         return out
 
